@@ -131,7 +131,7 @@ fn rng_free(_s: &[u16]) -> bool { true }
 
 /// An LL(1)-by-construction EBNF grammar with repetitions and optionals: every alternative is bracketed by its own
 /// fresh terminals, every repetition / optional body starts with a fresh terminal.
-fn ll_ebnf(rng: &mut Rng) -> crate::c09::EG {
+pub fn ll_ebnf(rng: &mut Rng) -> crate::c09::EG {
     use crate::c09::{EG, F};
     let n = rng.range(1, 3);
     let mut next = 5u16;
@@ -165,7 +165,7 @@ fn ll_ebnf(rng: &mut Rng) -> crate::c09::EG {
 }
 
 /// The sentence with comments before, between and after the tokens.
-fn render_commented(rng: &mut Rng, types: &[u16]) -> String {
+pub fn render_commented(rng: &mut Rng, types: &[u16]) -> String {
     let mut t = String::new();
     let cm = |rng: &mut Rng, t: &mut String| {
         match rng.below(4) { 0 => t.push_str("/* c */"), 1 => t.push_str("// l\n"), 2 => t.push_str(" /*a*/ /*b*/ "), _ => {} }
